@@ -59,7 +59,7 @@ CANARY_PRIO = ("kindonly", [-7, -9])
 
 
 def plan(tier, seed, build, scale):
-    n = int((480 if tier == "quick" else 7000) * scale)
+    n = int((480 if tier == "quick" else 30000) * scale)
     per = max(1, n // (12 if tier == "quick" else 48))
     units = []
     a = 0
